@@ -222,7 +222,7 @@ const FAMILIES: [&str; 40] = [
     "Vec<Int>", "Option<Nat>", "Option<Int>", "Principal", "Reserved", "Vec<Option<Nat>>", "Vec<Option<Int>>", "BTreeMap<String,Nat>", "BTreeMap<String,Int>",
 ];
 
-pub fn generate(_prop: &str, _tier: Tier, seed: u64, run: u64) -> Sc {
+pub fn generate(_prop: &str, tier: Tier, seed: u64, run: u64) -> Sc {
     let rng = Rng::new(mix(seed, &["C04", "wire"], run));
     let mut knobs = rng.split("knobs");
     let mut wl = rng.split("workload");
@@ -248,7 +248,7 @@ pub fn generate(_prop: &str, _tier: Tier, seed: u64, run: u64) -> Sc {
         env.0.insert("TOpt".into(), body);
     }
     let v0 = gen_service(&mut wl, &k, &env);
-    let nver = knobs.range(1, 6) as usize;
+    let nver = knobs.range(1, if tier == Tier::Thorough { 9 } else { 6 }) as usize;
     let mut versions = vec![v0];
     let mut kinds = vec!["initial".to_string()];
     let mut venvs: Vec<Option<SEnv>> = vec![None];
@@ -298,7 +298,7 @@ pub fn generate(_prop: &str, _tier: Tier, seed: u64, run: u64) -> Sc {
     for c in 0..nclients {
         events.push(Ev::Join { at: if c == 0 { 0 } else { sched.range(0, horizon as u64 / 2) as u32 }, client: c });
     }
-    let ncalls = knobs.range(2, 10);
+    let ncalls = knobs.range(2, if tier == Tier::Thorough { 24 } else { 10 });
     for _ in 0..ncalls {
         let long = net.chance(1, 2);
         events.push(Ev::Call {
